@@ -40,6 +40,19 @@ func abiOf(t reflect.Type) uintptr {
 	return uintptr((*[2]unsafe.Pointer)(unsafe.Pointer(&t))[1])
 }
 
+var abiOnce sync.Once
+
+func nameOfAbi(a uintptr) abiName {
+	abiOnce.Do(func() {
+		abiNames = map[uintptr]abiName{}
+		for name, rt := range genTypes {
+			abiNames[abiOf(rt)] = abiName{name, false}
+			abiNames[abiOf(reflect.PtrTo(rt))] = abiName{name, true}
+		}
+	})
+	return abiNames[a]
+}
+
 // regLine renders the registry events recorded since the last call ("" if none): type addresses
 // become the names of the generated types (s = "" for a type that is not one of them).
 func regLine() string {
@@ -49,13 +62,6 @@ func regLine() string {
 	hookMu.Unlock()
 	if len(evs) == 0 {
 		return ""
-	}
-	if abiNames == nil {
-		abiNames = map[uintptr]abiName{}
-		for name, rt := range genTypes {
-			abiNames[abiOf(rt)] = abiName{name, false}
-			abiNames[abiOf(reflect.PtrTo(rt))] = abiName{name, true}
-		}
 	}
 	var b bytes.Buffer
 	fmt.Fprintf(&b, `"ev":"Reg","pe":%d,"rs":%d,"obs":{"out":"ok","events":[`, os.Getpid(), regLines)
@@ -70,7 +76,7 @@ func regLine() string {
 			fmt.Fprintf(&b, `{"k":"rollback","s":"","p":false,"np":%d,"nl":%d}`, clampU(e.a), clampU(e.b))
 			continue
 		}
-		n := abiNames[e.a]
+		n := nameOfAbi(e.a)
 		fmt.Fprintf(&b, `{"k":%q,"s":%q,"p":%v}`, kind, n.s, n.p)
 	}
 	b.WriteString(`]}`)
@@ -85,6 +91,7 @@ func init() {
 			hookMu.Lock()
 			regBuf = append(regBuf, hookEv{ev, a, b, c, 0})
 			hookMu.Unlock()
+			gate(hookEv{ev, a, b, c, 0}) // holds the goroutine of a gated step (forced schedules), else returns at once
 		}
 		if !hookOn.Load() {
 			if ev == verifhook.EvSpanBlock {
